@@ -18,13 +18,13 @@ use std::collections::{BTreeMap, BTreeSet};
 const TRANSLATORS: [&str; 7] = ["x86", "amd64", "mips", "mipsel", "ppc", "aarch64", "aarch64eb"];
 
 #[derive(Clone, Debug, Serialize, Deserialize)]
-struct Case {
-    translator: usize,
-    unsupported_are_intrinsics: bool,
-    address: u64,
-    bytes: Vec<u8>,
+pub struct Case {
+    pub translator: usize,
+    pub unsupported_are_intrinsics: bool,
+    pub address: u64,
+    pub bytes: Vec<u8>,
     /// seed of the random guard valuations
-    vseed: u64,
+    pub vseed: u64,
 }
 
 fn translator_of(i: usize) -> Box<dyn Translator> {
@@ -502,7 +502,7 @@ fn addr_class(a: u64) -> &'static str {
     }
 }
 
-fn check(case: &Case, obs: &mut Obs) -> Result<(), Failure> {
+pub fn check(case: &Case, obs: &mut Obs) -> Result<(), Failure> {
     let name = TRANSLATORS[case.translator];
     let fam = match name {
         "mips" | "mipsel" => "mips",
@@ -561,7 +561,7 @@ fn check(case: &Case, obs: &mut Obs) -> Result<(), Failure> {
     }
 }
 
-fn render(c: &Case) -> String {
+pub fn render(c: &Case) -> String {
     format!("{} bytes={:02x?} address=0x{:x} unsupported_are_intrinsics={} vseed={}", TRANSLATORS[c.translator], c.bytes, c.address, c.unsupported_are_intrinsics, c.vseed)
 }
 
@@ -597,6 +597,32 @@ fn simplify(c: &Case) -> Vec<Case> {
     v
 }
 
+/// libFuzzer entry: byte 0 = translator (low 3 bits), policy (bit 3), address class (bits 4-7);
+/// the rest are the bytes to lift.
+pub fn fuzz_bytes(data: &[u8]) {
+    if data.len() < 2 {
+        return;
+    }
+    let h = data[0];
+    let translator = (h & 7) as usize % 7;
+    let address = match h >> 4 {
+        0..=7 => 0x1000,
+        8 => 0,
+        9 => 0xffff_fff8,
+        10 => 0x8000_0000_0000_0000,
+        11 => u64::MAX - 7,
+        12 => u64::MAX - 40,
+        13 => 0x7fff_ffff_ffff_fff8,
+        14 => 0x4000_0001,
+        _ => 0xffff_ffff_0000_0000,
+    };
+    let mut bytes = data[1..].to_vec();
+    bytes.truncate(32);
+    let case = Case { translator, unsupported_are_intrinsics: h & 8 != 0, address, bytes, vseed: 0x1234_5678_9abc_def0 ^ (data.len() as u64) };
+    engine::fuzz_one("C05", &case, &render, &check);
+}
+
+#[allow(dead_code)]
 fn main() -> std::process::ExitCode {
     let mut spec = Spec::new(
         "C05",
